@@ -17,13 +17,18 @@
    [dvd D a b] := exists c, b = c * a;   [assoc D a b] := exists v, unit v /\ b = a * v;
    [good_fuel Phi fuel y] := fuel = S f with Phi y < 2^f  (every fuel >= fuel_of (Phi y) is good).
 
-   What is NOT a theorem here (exact correspondence only, see MANIFEST): the instances Q = Ratio<_> and
-   Poly<_, K> = K[x] of these dictionaries (their ring operations are modelled by their results; the
-   ring laws of the canonical-pair / coefficient-list representation are not proved in this property). *)
+   Polynomials: K[x] = Poly<_, K> is the set of normal-form coefficient lists ([p_norm F f = f]) over any
+   field dictionary [field_dict o inv] with [field_laws]; on the subset type of normal forms the dictionary
+   [poly_dict] satisfies [euc_dict_laws] (Proofs/C15PolyRing.v), and the generic theorems are transported to
+   the model's functions on plain lists (theorems C15_poly_...).  HPoly over any field is treated directly (theorems C15_hpoly_...).
+
+   What is NOT a theorem here (exact correspondence only, see MANIFEST): the instance Q = Ratio<_> beyond
+   "an abstract field" - its ring operations on canonical pairs are modelled by their results, and that they
+   satisfy [field_laws] is property C14's subject (C14_ratio_exact), not proved in this development's terms. *)
 From Coq Require Import ZArith List Bool Znumtheory.
 Require Import Yui.Base.Ring Yui.Model.Euclid Yui.Model.EuclidPoly.
 Require Import Yui.Proofs.C15Gcd Yui.Proofs.C15Int Yui.Proofs.C15Quad Yui.Proofs.C15Field Yui.Proofs.C15Machine.
-Require Import Yui.Proofs.C15Main Yui.Proofs.C15HPoly.
+Require Import Yui.Proofs.C15Main Yui.Proofs.C15HPoly Yui.Proofs.C15Poly Yui.Proofs.C15PolyRing.
 Import ListNotations.
 Local Open Scope Z_scope.
 
@@ -354,6 +359,83 @@ Theorem C15_hpoly_units : forall (K : Type) (o : ring_ops K) (inv : K -> option 
 Proof. exact @hpoly_units_main. Qed.
 Print Assumptions C15_hpoly_units.
 
+(* ================================ univariate polynomials over a field ================================ *)
+(* Poly<_, K> = coefficient list, lowest degree first, in normal form [p_norm F f = f] (no trailing zero; the
+   Rust value is a map degree -> non-zero coefficient).  The long-division loop of poly.rs returns (q, r),
+   both normal, with f = q g + r - computed with the model's own + and * - and r = 0 or deg r < deg g; it
+   panics exactly when g = 0. *)
+Theorem C15_poly_division : forall (K : Type) (o : ring_ops K) (inv : K -> option K), field_laws o inv ->
+  forall f g : list K,
+  let F := field_dict o inv in
+  p_norm F f = f -> p_norm F g = g ->
+  (g <> [] ->
+     exists q r, d_div (poly_dict F) f g = Some q /\ d_rem (poly_dict F) f g = Some r /\
+       p_div_rem F f g = Some (q, r) /\ p_norm F q = q /\ p_norm F r = r /\
+       f = p_add F (p_mul F q g) r /\ (r = [] \/ (length r < length g)%nat)) /\
+  (g = [] -> d_div (poly_dict F) f g = None /\ d_rem (poly_dict F) f g = None).
+Proof. exact @poly_division_main. Qed.
+Print Assumptions C15_poly_division.
+
+(* gcd / gcdx over K[x]: terminate on the model's fuel, d is normal, divides f and g, every common divisor
+   divides d, s f + t g = d, d is monic or 0 (normalizing_unit d = 1), d = 0 iff f = g = 0, symmetric *)
+Theorem C15_poly_gcd : forall (K : Type) (o : ring_ops K) (inv : K -> option K), field_laws o inv ->
+  forall f g : list K,
+  let F := field_dict o inv in
+  p_norm F f = f -> p_norm F g = g ->
+  exists d s t,
+    p_gcd F f g = Some d /\ p_gcdx F f g = Some (d, s, t) /\
+    p_norm F d = d /\ p_norm F s = s /\ p_norm F t = t /\
+    (exists c, p_norm F c = c /\ f = p_mul F c d) /\ (exists c, p_norm F c = c /\ g = p_mul F c d) /\
+    (forall c, p_norm F c = c -> (exists c1, f = p_mul F c1 c) -> (exists c2, g = p_mul F c2 c) ->
+               exists c', p_norm F c' = c' /\ d = p_mul F c' c) /\
+    p_add F (p_mul F s f) (p_mul F t g) = d /\
+    p_nunit F d = p_one F /\
+    (d = [] <-> f = [] /\ g = []) /\
+    p_gcd F g f = Some d.
+Proof. exact @poly_gcd_main. Qed.
+Print Assumptions C15_poly_gcd.
+
+Theorem C15_poly_lcm : forall (K : Type) (o : ring_ops K) (inv : K -> option K), field_laws o inv ->
+  forall f g : list K,
+  let F := field_dict o inv in
+  p_norm F f = f -> p_norm F g = g ->
+  (f = [] /\ g = [] -> p_lcm F f g = None) /\
+  (~ (f = [] /\ g = []) ->
+     exists m d, p_lcm F f g = Some m /\ p_gcd F f g = Some d /\ p_norm F m = m /\
+       (exists v, p_norm F v = v /\ p_is_unit F v = true /\ p_mul F m d = p_mul F (p_mul F f g) v) /\
+       p_nunit F m = p_one F).
+Proof. exact @poly_lcm_main. Qed.
+Print Assumptions C15_poly_lcm.
+
+Theorem C15_poly_units : forall (K : Type) (o : ring_ops K) (inv : K -> option K), field_laws o inv ->
+  let F := field_dict o inv in let P := poly_dict F in
+  (forall f, p_norm F f = f -> (p_is_unit F f = true <-> exists g, p_inv F f = Some g)) /\
+  (forall f g, p_inv F f = Some g -> p_norm F g = g /\ p_mul F f g = p_one F) /\
+  (forall f g, p_norm F f = f -> p_norm F g = g -> p_mul F f g = p_one F -> p_is_unit F f = true) /\
+  (forall f, p_is_unit F (p_nunit F f) = true /\ p_norm F (p_nunit F f) = p_nunit F f) /\
+  (forall f, p_norm F f = f -> normalized P f = p_mul F f (p_nunit F f)) /\
+  (forall f, p_norm F f = f -> p_nunit F (normalized P f) = p_one F) /\
+  (forall f, p_norm F f = f -> normalized P (normalized P f) = normalized P f) /\
+  (forall f v, p_norm F f = f -> p_norm F v = v -> p_is_unit F v = true ->
+               normalized P (p_mul F f v) = normalized P f).
+Proof. exact @poly_units_main. Qed.
+Print Assumptions C15_poly_units.
+
+Theorem C15_poly_divides : forall (K : Type) (o : ring_ops K) (inv : K -> option K), field_laws o inv ->
+  forall f g : list K,
+  let F := field_dict o inv in
+  p_norm F f = f -> p_norm F g = g ->
+  exists b, divides (poly_dict F) f g = Some b /\
+            (b = true <-> f <> [] /\ exists c, p_norm F c = c /\ g = p_mul F c f).
+Proof. exact @poly_divides_main. Qed.
+Print Assumptions C15_poly_divides.
+
+(* the normal forms with these operations are a Euclidean domain in the sense of [euc_dict_laws] *)
+Theorem C15_laws_poly : forall (K : Type) (o : ring_ops K) (inv : K -> option K) (FL : field_laws o inv),
+  euc_dict_laws (NPD o inv FL) (np_phi o inv) /\ dict_morph (NPD o inv FL) (poly_dict (field_dict o inv)) (val o inv).
+Proof. exact (fun K o inv FL => conj (np_laws o inv FL) (np_morph o inv FL)). Qed.
+Print Assumptions C15_laws_poly.
+
 (* ================================ non-vacuity ================================ *)
 (* the witnesses of the two defects fixed in /repo, on the model *)
 Example C15_ex_div_round :
@@ -392,3 +474,10 @@ Proof.
   - reflexivity.
   - intros a Ha. destruct a; [exists true; split; reflexivity|contradiction].
 Qed.
+
+(* over F_7: x^2 + 2x + 1 = (4x + 2)(2x + 3) + 2;  gcd(x^2 - 1, x + 1) = x + 1;  gcd(3x^2, 4x^5) = x^2 *)
+Example C15_ex_poly :
+  p_div_rem (ff_dict 7) [1; 2; 1] [3; 2] = Some ([2; 4], [2]) /\
+  p_gcd (ff_dict 7) [6; 0; 1] [1; 1] = Some [1; 1] /\
+  h_gcd (ff_dict 7) (2%nat, 3) (5%nat, 4) = Some (2%nat, 1).
+Proof. repeat split; vm_compute; reflexivity. Qed.
